@@ -71,16 +71,96 @@ package builder
 //@ axiom errs-nonnil: ErrNoLeader != nil && ErrHaveLeftRecursion != nil && ErrInvalidParameters != nil
 //@ pred SelfLoopIn(graph map[string]map[string]struct{}, scc map[string]struct{}) bool = exists v string :: has(scc, v) && has(graph, v) && has(graph[v], v)
 
-//@ extern StronglyConnectedComponents(vertices []string, edges map[string]map[string]struct{}) (sccs []map[string]struct{})
-//@   ensures [nonnil] forall k int :: {sccs[k]} 0 <= k && k < len(sccs) ==> sccs[k] != nil && len(sccs[k]) >= 1
-//@   ensures [members] forall k int, v string :: {has(sccs[k], v)} 0 <= k && k < len(sccs) && has(sccs[k], v) ==> (exists j int :: 0 <= j && j < len(vertices) && vertices[j] == v) || has(edges, v)
+// Tarjan's algorithm (a recursive closure over the maps and the stack of the enclosing function) is under contract for
+// what its caller relies on and for the absence of panics: every component is a fresh non-empty set of non-empty
+// names, and every member of a component with several members has an outgoing edge (so it is a rule: only rules
+// have edges in the first-graph). That the components ARE the classes of mutual reachability is not expressed
+// here: it stays with the bounded stand-in.
+//@ pred LiveV(edges map[string]map[string]struct{}, v string) bool = has(edges, v) && len(edges[v]) >= 1
+//@ pred EdgeNames(edges map[string]map[string]struct{}) bool = forall u string, v string :: {has(edges[u], v)} has(edges, u) && has(edges[u], v) ==> v != ""
+//@ pred Sep(edges map[string]map[string]struct{}, identified map[string]struct{}) bool = forall u string :: {has(edges, u)} has(edges, u) ==> edges[u] != identified
+//@ pred SccsOK(sccs []map[string]struct{}, edges map[string]map[string]struct{}) bool =
+//@   | (forall k int :: {sccs[k]} 0 <= k && k < len(sccs) ==> sccs[k] != nil && fresh(sccs[k]) && len(sccs[k]) >= 1 && !has(sccs[k], ""))
+//@   | && (forall k int, v string :: {has(sccs[k], v)} 0 <= k && k < len(sccs) && has(sccs[k], v) && len(sccs[k]) > 1 ==> LiveV(edges, v))
+// the state between two successor visits: the vertex sits at its index, what lies above it on the stack has edges,
+// the vertex itself has edges as soon as anything lies above it or its lowlink was lowered
+//@ pred StackAbove(edges map[string]map[string]struct{}, vertex string) bool = len(stack) >= old(len(stack)) + 1 && stack[old(len(stack))] == vertex
+//@   | && (forall k int :: {stack[k]} 0 <= k && k < old(len(stack)) ==> stack[k] == old(stack[k]))
+//@   | && (forall k int :: {stack[k]} old(len(stack)) < k && k < len(stack) ==> LiveV(edges, stack[k]))
+//@   | && (forall k int :: {stack[k]} 0 <= k && k < len(stack) ==> stack[k] != "")
+//@ pred IndexKept(index map[string]int, lowlink map[string]int, vertex string) bool = has(index, vertex) && index[vertex] == old(len(stack))
+//@   | && (forall v string :: {has(index, v)} old(has(index, v)) ==> has(index, v) && index[v] == old(index[v]) && lowlink[v] == old(lowlink[v]))
+//@ pred Env(edges map[string]map[string]struct{}, identified map[string]struct{}) bool = EdgeNames(edges) && Sep(edges, identified) && (forall u string :: {has(edges, u)} has(edges, u) ==> alloc(edges[u]))
+//@ pred Acc(sccs []map[string]struct{}, edges map[string]map[string]struct{}, identified map[string]struct{}) bool = SccsOK(sccs, edges) && (forall k int :: {sccs[k]} 0 <= k && k < len(sccs) ==> sccs[k] != identified)
+//@ func StronglyConnectedComponents$dfs(edges map[string]map[string]struct{}, identified map[string]struct{}, index map[string]int, lowlink map[string]int, vertex string) (sccs []map[string]struct{})
+//@   requires [maps] identified != nil && index != nil && lowlink != nil && index != lowlink
+//@   requires [env] Env(edges, identified)
+//@   requires [new] !has(index, vertex)
+//@   requires [names] vertex != ""
+//@   requires [stack-names] forall k int :: {stack[k]} 0 <= k && k < len(stack) ==> stack[k] != ""
+//@   modifies stack, mapof(identified), mapof(index), mapof(lowlink)
+//@   ensures [grow C07 C13] len(stack) >= old(len(stack)) && forall k int :: {stack[k]} 0 <= k && k < old(len(stack)) ==> stack[k] == old(stack[k])
+//@   ensures [new-live C07] forall k int :: {stack[k]} old(len(stack)) < k && k < len(stack) ==> LiveV(edges, stack[k])
+//@   ensures [kept-live C07] len(stack) > old(len(stack)) ==> stack[old(len(stack))] == vertex && LiveV(edges, vertex)
+//@   ensures [stack-names C07] forall k int :: {stack[k]} 0 <= k && k < len(stack) ==> stack[k] != ""
+//@   ensures [index-kept C07 C13] has(index, vertex) && forall v string :: {has(index, v)} old(has(index, v)) ==> has(index, v) && index[v] == old(index[v]) && lowlink[v] == old(lowlink[v])
+//@   ensures [components C07 C13] SccsOK(sccs, edges)
+//@   loop#1 invariant [stack C07 C13] StackAbove(edges, vertex)
+//@   loop#1 invariant [index C07 C13] IndexKept(index, lowlink, vertex)
+//@   loop#1 invariant [lowered C07] has(lowlink, vertex) && (lowlink[vertex] == index[vertex] || LiveV(edges, vertex))
+//@   loop#1 invariant [own C07] len(stack) == old(len(stack)) + 1 || LiveV(edges, vertex)
+//@   loop#1 invariant [acc C07 C13] Acc(sccs, edges, identified) && Env(edges, identified)
+//@   loop#1 invariant [dom C07] forall x string :: {sel(dom1, x)} sel(dom1, x) == (has(edges, vertex) && has(edges[vertex], x))
+//@   loop#2 invariant [fill C07 C13] scc != nil && fresh(scc) && scc != identified && len(scc) <= idx2 && (forall k int :: {coll2[k]} 0 <= k && k < idx2 ==> has(scc, coll2[k])) && (forall x string :: {has(scc, x)} has(scc, x) ==> exists k int :: 0 <= k && k < idx2 && coll2[k] == x)
+//@   loop#2 invariant [stack C07 C13] StackAbove(edges, vertex) && IndexKept(index, lowlink, vertex) && (len(stack) == old(len(stack)) + 1 || LiveV(edges, vertex))
+//@   loop#2 invariant [acc C07 C13] Acc(sccs, edges, identified) && Env(edges, identified) && (forall k int :: {sccs[k]} 0 <= k && k < len(sccs) ==> sccs[k] != scc)
+//@   loop#3 invariant [component C07 C13] scc != nil && fresh(scc) && scc != identified && len(scc) >= 1 && !has(scc, "") && (len(scc) > 1 ==> forall x string :: {has(scc, x)} has(scc, x) ==> LiveV(edges, x)) && (forall x string :: {sel(dom3, x)} sel(dom3, x) == has(scc, x))
+//@   loop#3 invariant [stack C07 C13] len(stack) == old(len(stack)) && (forall k int :: {stack[k]} 0 <= k && k < len(stack) ==> stack[k] == old(stack[k])) && IndexKept(index, lowlink, vertex)
+//@   loop#3 invariant [acc C07 C13] Acc(sccs, edges, identified) && Env(edges, identified) && (forall k int :: {sccs[k]} 0 <= k && k < len(sccs) ==> sccs[k] != scc)
+//@   safety C13
+//@ func StronglyConnectedComponents(vertices []string, edges map[string]map[string]struct{}) (sccs []map[string]struct{})
+//@   requires [names] EdgeNames(edges) && forall j int :: {vertices[j]} 0 <= j && j < len(vertices) ==> vertices[j] != ""
+//@   requires [alloc] forall u string :: {has(edges, u)} has(edges, u) ==> alloc(edges[u])
+//@   ensures [nonnil C07 C13] forall k int :: {sccs[k]} 0 <= k && k < len(sccs) ==> sccs[k] != nil && len(sccs[k]) >= 1
 // every member of a component with several members has an outgoing edge
-//@   ensures [live] forall k int, v string :: {has(sccs[k], v)} 0 <= k && k < len(sccs) && has(sccs[k], v) && len(sccs[k]) > 1 ==> has(edges, v) && len(edges[v]) >= 1
-//@   ensures [fresh] forall k int :: {sccs[k]} 0 <= k && k < len(sccs) ==> fresh(sccs[k])
-// rule names are non-empty identifiers (front-end), so no component contains the empty name
-//@   ensures [names] forall k int :: {sccs[k]} 0 <= k && k < len(sccs) ==> !has(sccs[k], "")
+//@   ensures [live C07 C13] forall k int, v string :: {has(sccs[k], v)} 0 <= k && k < len(sccs) && has(sccs[k], v) && len(sccs[k]) > 1 ==> has(edges, v) && len(edges[v]) >= 1
+//@   ensures [fresh C07] forall k int :: {sccs[k]} 0 <= k && k < len(sccs) ==> fresh(sccs[k])
+//@   ensures [names C07] forall k int :: {sccs[k]} 0 <= k && k < len(sccs) ==> !has(sccs[k], "")
+//@   loop#4 invariant [acc C07 C13] Acc(sccs, edges, identified) && Env(edges, identified) && identified != nil && index != nil && lowlink != nil && index != lowlink && fresh(identified) && fresh(index) && fresh(lowlink) && (forall k int :: {stack[k]} 0 <= k && k < len(stack) ==> stack[k] != "")
+//@   safety C13
 
-//@ extern FindCyclesInSCC(graph map[string]map[string]struct{}, scc map[string]struct{}, start string) (cycles [][]string, err error)
+// ---- the helpers of scc.go (ordinary functions) and FindCyclesInSCC with its recursive closure ----
+//@ func min(a1 int, a2 int) (m int)
+//@   pure
+//@   ensures [min C07] m <= a1 && m <= a2 && (m == a1 || m == a2)
+//@   safety C13
+//@ func contains(s []string, e string) (found bool)
+//@   pure
+//@   ensures [exists C07] found == exists k int :: 0 <= k && k < len(s) && s[k] == e
+//@   loop#1 invariant [none-so-far C07] forall k int :: {s[k]} 0 <= k && k < idx1 ==> s[k] != e
+//@   safety C13
+// reduceGraph: the sub-graph induced by the component (every vertex of the component that the graph has, with its
+// edges into the component)
+//@ func reduceGraph(graph map[string]map[string]struct{}, scc map[string]struct{}) (red map[string]map[string]struct{})
+//@   requires [graph] graph != nil
+//@   ensures [fresh C07] red != nil && fresh(red)
+//@   ensures [vertices C07] forall v string :: {has(red, v)} has(red, v) == (has(graph, v) && has(scc, v))
+//@   ensures [inner C07] forall v string :: {has(red, v)} has(red, v) ==> red[v] != nil && fresh(red[v])
+//@   loop#1 invariant [acc C07] reduceGraph != nil && fresh(reduceGraph) && (forall v string :: {has(reduceGraph, v)} has(reduceGraph, v) == (sel(visited1, v) && has(scc, v))) && (forall v string :: {has(reduceGraph, v)} has(reduceGraph, v) ==> reduceGraph[v] != nil && fresh(reduceGraph[v])) && (forall v string :: {sel(dom1, v)} sel(dom1, v) == has(graph, v))
+//@   loop#2 invariant [acc-inner C07] reduceGraph != nil && fresh(reduceGraph) && has(graph, src) && has(scc, src) && (forall v string :: {has(reduceGraph, v)} has(reduceGraph, v) == ((sel(visited1, v) && has(scc, v)) || v == src)) && (forall v string :: {has(reduceGraph, v)} has(reduceGraph, v) ==> reduceGraph[v] != nil && fresh(reduceGraph[v])) && (forall v string :: {sel(dom1, v)} sel(dom1, v) == has(graph, v))
+//@   safety C13
+
+// FindCyclesInSCC: no panic on any graph, component and start vertex (C13). What the enumeration MEANS (every simple
+// cycle through start is reported) is not expressed here: it stays with the bounded stand-in.
+//@ func FindCyclesInSCC$dfs(graph map[string]map[string]struct{}, node string, path []string) (ret [][]string)
+//@   ensures [paths C07] forall k int :: {ret[k]} 0 <= k && k < len(ret) ==> len(ret[k]) >= 1
+//@   loop#1 invariant [paths C07] forall k int :: {ret[k]} 0 <= k && k < len(ret) ==> len(ret[k]) >= 1
+//@   safety C13
+//@ func FindCyclesInSCC(graph map[string]map[string]struct{}, scc map[string]struct{}, start string) (cycles [][]string, err error)
+// every vertex of the component is a vertex of the graph once the input checks have passed
+//@   loop#1 invariant [all-present C13] (forall k string :: {sel(visited1, k)} sel(visited1, k) ==> has(graph, k) || len(extravertices) >= 1) && (forall k string :: {sel(dom1, k)} sel(dom1, k) == has(scc, k))
+//@   ensures [paths C07] err == nil ==> forall k int :: {cycles[k]} 0 <= k && k < len(cycles) ==> len(cycles[k]) >= 1
+//@   safety C13
 
 //@ func findLeader(graph map[string]map[string]struct{}, scc map[string]struct{}) (leader string, err error)
 //@   requires [names] scc != nil && !has(scc, "") && len(scc) >= 1
@@ -98,8 +178,17 @@ package builder
 //@   loop#6 invariant [least C19] (leader == "" || sel(visited6, leader)) && (forall k string :: {sel(visited6, k)} sel(visited6, k) ==> leader != "" && leader <= k) && !has(leaders, "") && (forall k string :: {sel(dom6, k)} sel(dom6, k) == has(leaders, k))
 //@   safety C13
 
+// NamesWF: a front-end guarantee (assumption, like TreeWF): rule names and the names of referenced rules are non-empty
+// identifiers. The component analysis relies on it (the empty name is findLeader's "no candidate yet" marker).
+//@ pred NamesWF() bool = (forall c *ast.Rule, n string :: {InFirst(c, n)} InFirst(c, n) ==> n != "")
 //@ func MakeFirstGraph(rules map[string]*ast.Rule) (graph map[string]map[string]struct{})
 //@   requires [wf] rules != nil && RulesWF(rules) && TreeWF()
+//@   requires [names] NamesWF() && !has(rules, "")
+//@   ensures [alloc-inner C07 C13] forall r string :: {has(graph, r)} has(graph, r) ==> alloc(graph[r])
+//@   ensures [names C07 C13] !has(graph, "") && EdgeNames(graph)
+//@   loop#1 invariant [names C07] !has(vertices, "")
+//@   loop#2 invariant [names C07] !has(vertices, "")
+//@   loop#3 invariant [names C07] !has(graph, "") && !has(vertices, "") && (forall x string :: {sel(dom3, x)} sel(dom3, x) == has(vertices, x))
 // there is an edge A -> B exactly when B may be invoked at the start position of A's expression
 //@   ensures [edges C07] forall r string :: {has(graph, r)} has(rules, r) ==> has(graph, r) && graph[r] != nil && forall nm string :: {has(graph[r], nm)} has(graph[r], nm) == InFirst(rules[r], nm)
 //@   ensures [closed C07] graph != nil && fresh(graph) && forall r string :: {has(graph, r)} has(graph, r) ==> graph[r] != nil
@@ -126,6 +215,8 @@ package builder
 
 //@ func ComputeLeftRecursives(rules map[string]*ast.Rule) (have bool, err error)
 //@   requires [wf] rules != nil && RulesWF(rules) && TreeWF()
+//@   requires [names] NamesWF() && !has(rules, "")
+//@   loop#1 invariant [keys C07 C13] (forall j int :: {vertices[j]} 0 <= j && j < len(vertices) ==> vertices[j] != "") && (forall x string :: {sel(dom1, x)} sel(dom1, x) == has(graph, x))
 //@   modifies all Rule.LeftRecursive, all Rule.Leader
 // a component with several members or a self-loop is left recursion, and is reported
 //@   ensures [detects C07 local] err == nil ==> (have == exists k int :: 0 <= k && k < len(sccs) && (len(sccs[k]) > 1 || SelfLoopIn(graph, sccs[k])))
@@ -140,9 +231,11 @@ package builder
 //@   | (forall k int :: {sccs[k]} 0 <= k && k < len(sccs) ==> sccs[k] != nil && len(sccs[k]) >= 1 && !has(sccs[k], ""))
 //@   | && (forall k int, v string :: {has(sccs[k], v)} 0 <= k && k < len(sccs) && has(sccs[k], v) && len(sccs[k]) > 1 ==> has(graph, v) && len(graph[v]) >= 1)
 
+//@ pred RuleNamesWF(grammar *ast.Grammar) bool = forall k int :: {grammar.Rules[k]} 0 <= k && k < len(grammar.Rules) ==> grammar.Rules[k].Name.Val != ""
 //@ func PrepareGrammar(grammar *ast.Grammar) (have bool, err error)
 //@   requires [wf] grammar != nil && TreeWF() && forall k int :: 0 <= k && k < len(grammar.Rules) ==> grammar.Rules[k] != nil
-//@   loop#1 invariant [table] mapRules != nil && RulesWF(mapRules)
+//@   requires [names] NamesWF() && RuleNamesWF(grammar)
+//@   loop#1 invariant [table] mapRules != nil && RulesWF(mapRules) && !has(mapRules, "")
 // the analysed rules table is the one the generated parser builds (buildRulesTable): when a name is defined
 // more than once, the LAST definition is the rule that runs, so it is the one that must be analysed
 //@   loop#1 invariant [last-wins C07] grammar.Rules == coll1 && forall k int :: {grammar.Rules[k]} 0 <= k && k < idx1 ==> has(mapRules, grammar.Rules[k].Name.Val) && exists j int :: k <= j && j < idx1 && grammar.Rules[j].Name.Val == grammar.Rules[k].Name.Val && mapRules[grammar.Rules[k].Name.Val] == grammar.Rules[j]
@@ -375,6 +468,7 @@ package builder
 
 //@ func (b *builder) buildParser(grammar *ast.Grammar) (res error)
 //@   requires [wf] b != nil && grammar != nil && TreeWF() && CodeWF() && forall k int :: 0 <= k && k < len(grammar.Rules) ==> grammar.Rules[k] != nil
+//@   requires [names] NamesWF() && RuleNamesWF(grammar)
 //@   modifies Flags, all Rule.LeftRecursive, all Rule.Leader, all builder.err, all builder.exprIndex, all builder.ruleName, all builder.globalState, all builder.rangeTable, all builder.argsStack, all builder.haveLeftRecursion, all ActionExpr.FuncIx, all AndCodeExpr.FuncIx, all NotCodeExpr.FuncIx, all StateCodeExpr.FuncIx
 // C07: an analysis error and left recursion without -support-left-recursion are build errors
 //@   ensures [reject C07 C13 local] (err != nil ==> res != nil) && (err == nil && haveLeftRecursion && !old(b.supportLeftRecursion) ==> res != nil)
@@ -513,5 +607,6 @@ package builder
 //@   safety C13
 //@ func BuildParser(w io.Writer, g *ast.Grammar, opts []Option) (res error)
 //@   requires [wf] g != nil && TreeWF() && CodeWF() && forall k int :: 0 <= k && k < len(g.Rules) ==> g.Rules[k] != nil
+//@   requires [names] NamesWF() && RuleNamesWF(g)
 //@   modifies Flags, all Rule.LeftRecursive, all Rule.Leader, all ActionExpr.FuncIx, all AndCodeExpr.FuncIx, all NotCodeExpr.FuncIx, all StateCodeExpr.FuncIx, all builder.err, all builder.exprIndex, all builder.ruleName, all builder.globalState, all builder.rangeTable, all builder.argsStack, all builder.haveLeftRecursion
 //@   safety C13
